@@ -7,7 +7,8 @@ import sys
 from pathlib import Path
 
 OUT = Path('/tmp/mut/out')
-WT = Path('/tmp/mut/wt_validate')
+WT = Path(os.environ.get('MUT_WT', '/tmp/mut/wt_validate'))
+RESULT = os.environ.get('MUT_RESULT', '/verif/.work/mutant_validation.json')
 
 
 def sh(cmd, **kw):
@@ -45,9 +46,9 @@ def main():
         print(name, res[name], flush=True)
     sh(f'git -C {WT} checkout -- . && git -C {WT} clean -fdq')
     sh(f'git -C /repo worktree remove --force {WT}')
-    old = json.load(open('/verif/.work/mutant_validation.json')) if os.path.exists('/verif/.work/mutant_validation.json') else {}
+    old = json.load(open(RESULT)) if os.path.exists(RESULT) else {}
     old.update(res)
-    json.dump(old, open('/verif/.work/mutant_validation.json', 'w'), indent=1)
+    json.dump(old, open(RESULT, 'w'), indent=1)
 
 
 main()
